@@ -701,7 +701,7 @@ func reflectItemToType[T Objects | Links](it Item) (*T, error) {
 // as a form of provenance, or to support future editing by clients.
 type Source struct {
 	// Content
-	Content NaturalLanguageValues `jsonld:"content"`
+	Content NaturalLanguageValues `jsonld:"content,collapsible"`
 	// MediaType
 	MediaType MimeType `jsonld:"mediaType"`
 }
@@ -713,8 +713,11 @@ func GetAPSource(val *fastjson.Value) Source {
 		return s
 	}
 
-	if contBytes := val.Get("source", "content").GetStringBytes(); len(contBytes) > 0 {
-		s.Content.UnmarshalJSON(contBytes)
+	if src := val.Get("source"); src != nil {
+		// content may be a plain string or, for several languages, a "contentMap" language map
+		if cont := JSONGetNaturalLanguageField(src, "content"); len(cont) > 0 {
+			s.Content = cont
+		}
 	}
 	if mimeBytes := val.Get("source", "mediaType").GetStringBytes(); len(mimeBytes) > 0 {
 		s.MediaType.UnmarshalJSON(mimeBytes)
